@@ -228,6 +228,8 @@ func (h *harness) buildCase(name string) corr.Case {
 	}
 	for j, w := range h.writes {
 		if w.err != nil {
+			// a write that returned an error reaches no reader (it still is write number j)
+			add(float64(w.wb), "pipe werr", "err")
 			continue
 		}
 		p := h.pk[j]
@@ -316,6 +318,31 @@ func (rd *reader) intervals() []interval {
 	return out
 }
 
+// checkWire: the two clauses that can be evaluated even when a scenario had to be abandoned.
+func (h *harness) checkWire(c *corr.Ctx) {
+	viol := func(clause, key, detail string) {
+		c.Violate(corr.Violation{Property: "C01", Clause: clause, Key: key, Where: "TCP connection shared by the media writer and the response writer", Input: h.sc, Detail: detail})
+	}
+	if h.ns != nil {
+		h.ns.mu.Lock()
+		nSplit, firstSplit := h.ns.nSplit, h.ns.firstSplit
+		h.ns.mu.Unlock()
+		if nSplit > 0 {
+			viol("every interleaved frame / response / request is handed to the connection in one Write (the media writer and the response writer share it)",
+				"c01-split-write", fmt.Sprintf("%d Writes were not whole messages; first: %s", nSplit, firstSplit))
+		}
+	}
+	for _, rd := range h.readers {
+		rd.mu.Lock()
+		errs := append([]string{}, rd.decodeErrs...)
+		rd.mu.Unlock()
+		if !rd.udp && len(errs) > 0 && !(h.sc.TLS && h.sc.ExpectDesync) {
+			viol("every frame of a reliable transport is decoded", "c01-decode-error",
+				fmt.Sprintf("reader %d (%s): %v", rd.idx, rd.spec.Transport, errs))
+		}
+	}
+}
+
 func (h *harness) checkProperty(c *corr.Ctx) {
 	sc := h.sc
 	desync := false // the reader under examination lost the SRTP rollover counter (known finding)
@@ -325,8 +352,15 @@ func (h *harness) checkProperty(c *corr.Ctx) {
 		}
 		c.Violate(corr.Violation{Property: "C01", Clause: clause, Key: key, Where: "server stream → session queue → transport → client callback", Input: sc, Detail: detail})
 	}
+	h.ns.mu.Lock()
+	nSplit, firstSplit := h.ns.nSplit, h.ns.firstSplit
+	h.ns.mu.Unlock()
+	if nSplit > 0 {
+		viol("every interleaved frame / response / request is handed to the connection in one Write (the media writer and the response writer share it)",
+			"c01-split-write", fmt.Sprintf("%d Writes were not whole messages; first: %s", nSplit, firstSplit))
+	}
 	for j, w := range h.writes {
-		if w.err != nil {
+		if w.err != nil && !h.pk[j].mayErr {
 			viol("a packet of 1..max payload bytes is accepted by the stream writer", "c01-write-error",
 				fmt.Sprintf("write %d (payload %d bytes) returned %v", j, h.pk[j].size, w.err))
 		}
